@@ -256,6 +256,12 @@ func (pipeline *IncrementalPipeline) sync(job *job, ctx context.Context) (int, e
 								pe, e := tc.transformEntities(runner, lentities, job.title)
 								res.entities = pe
 								res.err = e
+							} else if wt, ok := pipeline.transform.(*wrappedTransform); ok && reflect.TypeOf(wt.t) == reflect.TypeOf(&JavascriptTransform{}) {
+								// behind the error handlers' wrapper every worker needs a javascript runtime of its own as well
+								tc, _ := wt.t.(*JavascriptTransform).Clone()
+								pe, e := (&wrappedTransform{tc, wt.failingEntityHandlers, wt.jobId}).transformEntities(runner, lentities, job.title)
+								res.entities = pe
+								res.err = e
 							} else {
 								pe, e := pipeline.transform.transformEntities(runner, lentities, job.title)
 								res.entities = pe
